@@ -40,6 +40,10 @@ def build(sp, parent=None, index=None):
         n.remove_namespace(k)
     if "nsd" in sp:                          # the map assigned directly (as importers and callers of the setter do)
         n.nsmap = dict(sp["nsd"])
+    if "dns" in sp:                          # a default namespace, filed under the key None as the XML importer does
+        m = dict(n.nsmap)
+        m[None] = sp["dns"]
+        n.nsmap = m
     return n
 
 
